@@ -203,7 +203,7 @@ pub fn meta() -> CheckMeta {
         level: "exploration",
         rule: "function level: the real authenticate_client reading from a MemPipe in 5 fragmentation classes (whole, 1-byte drip, split after the hash, split inside the length, random with spurious Pending): all 256 single-bit flips of the right hash, single-byte deviations at every position (all 32x255 in the thorough tier), correct k-byte prefixes/suffixes for k=0..31, two-byte deviations whose differences cancel (same XOR mask, +1/-1, swapped bytes), hashes of related passwords, all-zero/all-one => must be rejected; valid preambles with declared padding at the boundaries + 500 random lengths (thorough: all 65536) followed by a sentinel frame => Ok and the sentinel must be exactly what is left; every truncation length of valid preambles => not Ok and no hang after EOF. End to end (real Server::listen + TcpProxyHandler, raw TLS client): a bad preamble followed by a perfectly valid Settings+SYN+destination+data must cause no Dial event, no target accept and no plaintext reply; positive controls must get a session. distinct_nontrivial = distinct (preamble, fragmentation class).".into(),
         assumptions: vec!["SHA-256 from the sha2 crate is used independently to compute expected hashes".into()],
-        floors: vec![("wrong_hash_preambles", 1000), ("valid_preambles", 400), ("truncated_preambles", 300), ("e2e_bad_preambles", 15), ("e2e_positive_controls", 4)],
+        floors: vec![("wrong_hash_preambles", 1000), ("valid_preambles", 400), ("truncated_preambles", 300), ("e2e_bad_preambles", 15), ("e2e_positive_controls", 4), ("e2e_stalled_preambles", 3)],
         exhaustive: false,
     }
 }
@@ -264,6 +264,22 @@ pub fn run_e2e(ctx: Ctx) -> Report {
             cases.push(("truncated_valid_preamble", full[..cut].to_vec(), false));
             cases.push(("valid", pre(&right, *rng.pick(&[0usize, 1, 30, 255, 256, 4000, 65535])), true));
         }
+        // peers that stall with an incomplete preamble (never the complete right hash) and then talk like a session:
+        // waiting does not authenticate anybody, however long (a time limit on the preamble must end the
+        // connection, not wave it through). Stall lengths in seconds; encoded in the label.
+        let stalls: &[(&'static str, u64)] = if quick { &[("stalled_6s", 6500)] } else { &[("stalled_6s", 6500), ("stalled_12s", 12_000), ("stalled_31s", 31_000), ("stalled_62s", 62_000)] };
+        for (label, _) in stalls {
+            cases.push((label, Vec::new(), false));
+            cases.push((label, right[..rng.usize(1, 31)].to_vec(), false));
+            let mut wrong = right;
+            wrong[rng.usize(0, 31)] ^= 0x40;
+            let mut p = wrong.to_vec();
+            p.extend_from_slice(&100u16.to_be_bytes());
+            p.extend_from_slice(&[0u8; 10]);
+            cases.push((label, p, false));
+            cases.push((label, wrong[..20].to_vec(), false));
+        }
+        let stall_ms = |label: &str| stalls.iter().find(|(l, _)| *l == label).map(|(_, ms)| *ms);
         let before = anytls_rs::verif::event_count();
         let mut uniq = 0u32;
         let results = std::sync::Arc::new(std::sync::Mutex::new(Vec::new()));
@@ -273,6 +289,7 @@ pub fn run_e2e(ctx: Ctx) -> Report {
             let ip = netkit::uniq_ip(44, uniq);
             let server_addr = server_addr.clone();
             let results = results.clone();
+            let stall = stall_ms(label);
             set.spawn(async move {
                 use tokio::io::{AsyncReadExt, AsyncWriteExt};
                 let r: Result<(Vec<u8>, bool), String> = async {
@@ -287,6 +304,10 @@ pub fn run_e2e(ctx: Ctx) -> Report {
                     after.extend_from_slice(&refcodec::encode(refcodec::PSH, 1, &dest));
                     after.extend_from_slice(&refcodec::encode(refcodec::PSH, 1, b"hello target"));
                     tls.write_all(&preamble).await.map_err(|e| e.to_string())?;
+                    let _ = tls.flush().await;
+                    if let Some(ms) = stall {
+                        tokio::time::sleep(Duration::from_millis(ms)).await;
+                    }
                     if label != "truncated_valid_preamble" {
                         let _ = tls.write_all(&after).await;
                     }
@@ -343,7 +364,10 @@ pub fn run_e2e(ctx: Ctx) -> Report {
                         if !got.is_empty() {
                             rep.violate("auth", &format!("e2e_{label}"), "protocol_reply_without_password", format!("the server answered {} plaintext bytes to a {label} preamble", got.len()), case.clone());
                         }
-                        if !closed {
+                        if label.starts_with("stalled") {
+                            rep.add("e2e_stalled_preambles", 1);
+                        }
+                        if !closed && !label.starts_with("stalled") {
                             rep.violate("auth", &format!("e2e_{label}"), "connection_left_open", format!("the server did not close the connection within 6 s after a {label} preamble"), case);
                         }
                     }
